@@ -2,6 +2,7 @@ package shard
 
 import (
 	"errors"
+	"sync"
 
 	"github.com/semafind/semadb/diskstore"
 )
@@ -23,6 +24,7 @@ type vStore struct {
 	useAfterEnd int // storage operations observed on handles of an ended transaction
 	writes    int
 	onReadBegin func()
+	writer      sync.Mutex
 }
 
 func newVStore() *vStore {
@@ -146,6 +148,8 @@ func (s *vStore) Read(f func(diskstore.BucketManager) error) error {
 }
 
 func (s *vStore) Write(f func(diskstore.BucketManager) error) error {
+	s.writer.Lock() // one read-write transaction at a time, as bbolt
+	defer s.writer.Unlock()
 	s.writes++
 	work := map[string]diskstore.Bucket{}
 	for name, b := range s.committed {
